@@ -429,6 +429,9 @@ pub struct Rho {
     pub supers: BTreeMap<JStr, Vec<JStr>>,
     /// sensitivity self-test only (`VERIF_C07_PERTURB=<probe name>`): the reference does NOT rename this position
     pub skip: Option<Pos>,
+    /// answers of a caller-written remapper laid over the mapping-based one: (is field, owner, name, descriptor) ->
+    /// new name, for exactly that owner (no inheritance); consulted first
+    pub overlay: BTreeMap<(bool, JStr, JStr, JStr), JStr>,
 }
 
 /// where a member lookup found its answer
@@ -459,7 +462,7 @@ impl Rho {
             }
             classes.insert(JStr::from_str(k), rc);
         }
-        Rho { classes, supers, skip: None }
+        Rho { classes, supers, skip: None, overlay: BTreeMap::new() }
     }
 
     /// class: table lookup, else unchanged
@@ -548,12 +551,18 @@ impl Rho {
     /// field (owner, name, desc): owner, then its super types transitively, first hit wins, else the name is
     /// unchanged; the descriptor is always mapped
     pub fn map_field(&self, owner: &JStr, name: &JStr, desc: &JStr) -> (JStr, JStr, Option<Hit>) {
+        if let Some(n) = self.overlay.get(&(true, owner.clone(), name.clone(), desc.clone())) {
+            return (n.clone(), self.map_desc(desc), Some(Hit { depth: 0, declaring_in_jar: true }));
+        }
         match self.find(owner, &(name.clone(), desc.clone()), true, 0) {
             Some((n, h)) => (n, self.map_desc(desc), Some(h)),
             None => (name.clone(), self.map_desc(desc), None),
         }
     }
     pub fn map_method(&self, owner: &JStr, name: &JStr, desc: &JStr) -> (JStr, JStr, Option<Hit>) {
+        if let Some(n) = self.overlay.get(&(false, owner.clone(), name.clone(), desc.clone())) {
+            return (n.clone(), self.map_desc(desc), Some(Hit { depth: 0, declaring_in_jar: true }));
+        }
         match self.find(owner, &(name.clone(), desc.clone()), false, 0) {
             Some((n, h)) => (n, self.map_desc(desc), Some(h)),
             None => (name.clone(), self.map_desc(desc), None),
@@ -1154,4 +1163,34 @@ pub fn normalise_path(p: &str) -> String {
         i += 1;
     }
     out.join(".")
+}
+
+
+/// Every (is field, owner, name, descriptor) that occurs as a member declaration or member reference of `m`.
+pub fn member_keys(m: &Sem) -> Vec<(bool, JStr, JStr, JStr)> {
+    struct Col(Vec<(bool, JStr, JStr, JStr)>);
+    impl RefVisitor for Col {
+        fn class(&mut self, _pos: Pos, _c: &mut JStr) {}
+        fn desc(&mut self, _pos: Pos, _d: &mut JStr) {}
+        fn field_decl(&mut self, this: &JStr, name: &mut JStr, desc: &mut JStr) {
+            self.0.push((true, this.clone(), name.clone(), desc.clone()));
+        }
+        fn method_decl(&mut self, this: &JStr, name: &mut JStr, desc: &mut JStr) {
+            self.0.push((false, this.clone(), name.clone(), desc.clone()));
+        }
+        fn field_ref(&mut self, _pos: Pos, m: &mut MemberRef) {
+            self.0.push((true, m.owner.clone(), m.name.clone(), m.desc.clone()));
+        }
+        fn method_ref(&mut self, _pos: Pos, m: &mut MemberRef) {
+            self.0.push((false, m.owner.clone(), m.name.clone(), m.desc.clone()));
+        }
+        fn enclosing_method(&mut self, _class: &mut JStr, _method: &mut Option<(JStr, JStr)>) {}
+        fn enum_const(&mut self, _type_desc: &mut JStr, _const_name: &mut JStr) {}
+        fn record_component(&mut self, _this: &JStr, _name: &mut JStr, _desc: &mut JStr) {}
+        fn signature(&mut self, _pos: Pos, _s: &mut JStr) {}
+    }
+    let mut c = Col(vec![]);
+    let mut copy = m.clone();
+    walk(&mut copy, &mut c);
+    c.0
 }
